@@ -312,3 +312,13 @@ Definition b_overlap (score : vec -> vec -> option vec -> K) (r : reduction) (x 
       Some (reduce_loss r cells None)
   end.
 End Batched.
+
+(* ---- tversky_loss: (1 - Tversky index)^gamma; gamma = 0 stands for None (and gamma = 1): no exponent;
+   non-integer or smaller exponents are outside the model (gamma < 1 is rejected by the code) ----------- *)
+Section TverskyLoss.
+Context {K : fld}.
+Fixpoint fpow (x : K) (n : nat) : K := match n with O => 1 | S n' => x * fpow x n' end.
+Definition tversky_loss (gamma : nat) (alpha beta eps : K) (p t : list K) (w : option (list K)) : K :=
+  fpow (1 - tversky_index alpha beta eps p t w) (Nat.max gamma 1).
+Definition dice_loss (eps : K) (p t : list K) (w : option (list K)) : K := 1 - dice_score eps p t w.
+End TverskyLoss.
